@@ -208,6 +208,14 @@ func class(res string) string {
 	if i := strings.IndexAny(f[0], "=:"); i >= 0 {
 		return f[0][:i]
 	}
+	// a value (a digest, a signature, an encoded string …) is one class, not one class per value: the histogram is
+	// about outcomes, and the evidence file must stay small
+	if len(f[0]) >= 8 && strings.Trim(f[0], "0123456789abcdefABCDEF") == "" {
+		return "value"
+	}
+	if len(f[0]) > 32 {
+		return f[0][:32] + "…"
+	}
 	return f[0]
 }
 
